@@ -34,6 +34,9 @@ type Entry struct {
 	Token   string
 	Job     *simrun.Job `json:"-"`
 	Param   string      // output parameter the value sits in (Kind out)
+	// AlsoIn: further output parameters of the same job that name the same
+	// path (two outputs may draw the same token)
+	AlsoIn []string
 	// who wrote it, in a form that survives the process (engine E2)
 	JobName  string // identity of the job
 	CallPath string
@@ -95,6 +98,9 @@ func (l *Ledger) add(e *Entry) {
 	}
 	if old := l.Entries[e.Path]; old != nil {
 		// two outputs of one job drew the same token: one file
+		if e.Param != "" && e.Param != old.Param {
+			old.AlsoIn = append(old.AlsoIn, e.Param)
+		}
 		return
 	}
 	l.Entries[e.Path] = e
@@ -102,7 +108,10 @@ func (l *Ledger) add(e *Entry) {
 }
 
 func (l *Ledger) writeFile(j *simrun.Job, path, token, kind, param string) error {
-	if l.Entries[path] != nil {
+	if old := l.Entries[path]; old != nil {
+		if param != "" && param != old.Param {
+			old.AlsoIn = append(old.AlsoIn, param)
+		}
 		return nil
 	}
 	if err := os.MkdirAll(filepath.Dir(path), 0o755); err != nil {
@@ -144,6 +153,15 @@ func LeafKind(base, token string) string {
 func (l *Ledger) leaf(j *simrun.Job, base, token, param string, isFileType bool) (any, error) {
 	h := hash(token)
 	p := filepath.Join(j.FilesPath, token)
+	if old := l.Entries[p]; old != nil && param != "" && param != old.Param {
+		old.AlsoIn = append(old.AlsoIn, param)
+		for _, e := range l.Order {
+			// (the files behind a link or inside a directory output)
+			if e != old && e.Token == old.Token && e.Job == old.Job {
+				e.AlsoIn = append(e.AlsoIn, param)
+			}
+		}
+	}
 	switch {
 	case base == "string" || base == "map":
 		// a string (or a string inside an untyped map) that happens to be
@@ -311,6 +329,18 @@ func (l *Ledger) walk(j *simrun.Job, prog *mrogen.Program, ty mrogen.Ty, v any, 
 // names and some temporary files, and returns the outputs with tokens
 // replaced by paths.
 func (l *Ledger) Materialise(j *simrun.Job, prog *mrogen.Program, outs *jsonx.Obj) (*jsonx.Obj, error) {
+	// a new attempt of a job may get the directory name of the one that was
+	// reset (same process, same second): what the reset wiped is forgotten,
+	// so that the new attempt writes it again
+	keep := l.Order[:0]
+	for _, e := range l.Order {
+		if (strings.HasPrefix(e.Path, j.FilesPath+"/") || strings.HasPrefix(e.Path, j.MdPath+"/")) && e.Job != j && !e.Exists() {
+			delete(l.Entries, e.Path)
+			continue
+		}
+		keep = append(keep, e)
+	}
+	l.Order = keep
 	before := len(l.Order)
 	res := outs
 	if j.Phase != "split" && j.Stage != nil {
